@@ -3,6 +3,7 @@ import SJ.Props.C01Iff
 import SJ.Props.C01Ap
 import SJ.Props.C01Rv
 import SJ.Props.C01Range
+import SJ.Props.C01NoFuel
 #print axioms SJ.Props.C01.c01_complete_value
 #print axioms SJ.Props.C01.c01_complete_sideConditions
 #print axioms SJ.Props.C01.c01_complete_value_ap
@@ -48,3 +49,6 @@ import SJ.Props.C01Range
 #print axioms SJ.Props.C01Range.c01_default_rejects_finite
 #print axioms SJ.Props.C01Range.c01_default_accepts_infinite
 #print axioms SJ.Props.C01Range.c01_range_oracle
+#print axioms SJ.Props.C01NoFuel.c01_range_clause_no_fuel
+#print axioms SJ.Props.C01NoFuel.c01_range_clause_isSome
+#print axioms SJ.Props.C01NoFuel.c01_accepts_iff_no_fuel
